@@ -41,22 +41,23 @@ func (cs *Case) project(m Sexp) Sexp {
 }
 
 type Ctx struct {
-	Prop     string
-	Tier     string
-	Seed     int64
-	Rng      *rand.Rand
-	Verif    string // /verif
-	Repo     string // /repo
-	Work     string // scratch directory (removed by check.sh)
-	Start    time.Time
-	Rule     string
-	cases    []*Case
-	ReplayID int          // >=0: only this case is of interest
-	rawOut   map[int]Sexp // unprojected model outputs
-	golden   int          // cases cross-checked in the kernel
-	Notes    []string
-	Hist     map[string]map[string]int
-	replay   bool
+	Prop        string
+	Tier        string
+	Seed        int64
+	Rng         *rand.Rand
+	Verif       string // /verif
+	Repo        string // /repo
+	Work        string // scratch directory (removed by check.sh)
+	Start       time.Time
+	Rule        string
+	cases       []*Case
+	ReplayID    int          // >=0: only this case is of interest
+	HistoryTick int          // counts flow cases (every n-th is repeated on an Options value with a history)
+	rawOut      map[int]Sexp // unprojected model outputs
+	golden      int          // cases cross-checked in the kernel
+	Notes       []string
+	Hist        map[string]map[string]int
+	replay      bool
 }
 
 func NewCtx(prop, tier string, seed int64) *Ctx {
